@@ -106,7 +106,7 @@ Qed.
 (* non-vacuity: the reset matters -- run from a validator that still holds a scope opened by an earlier
    file, an unmatched Offset of that name would go unreported *)
 Lemma carried_scope_would_hide :
-  let rows := [mkRow 1 false [(None, Some (mkMarker Offset [[97%N]]))]] in
+  let rows := [mkRow 1 [] [(NoDelay, Some (mkMarker Offset [[97%N]]))]] in
   process_file true None None rows = Ok ([], [(0, [mkIssue OffsetBeforeOnset 0 [97%N]])]) /\
   process_file_from true None None [[97%N]] rows = Ok ([], [(0, [])]).
 Proof. vm_compute. split; reflexivity. Qed.
